@@ -117,6 +117,9 @@ func genStressB(r *Rng, tier string, p *Plan) {
 			}
 		}
 	}
+	// the rate of the stress rule itself: 1 keeps every trace (legal), the shipped
+	// default is 100
+	p.N["stress_rate"] = PickOf(r, int64(2), 2, 1, 3, 100)
 	p.SortOps()
 }
 
@@ -153,7 +156,7 @@ func runStressB(t *testing.T, p *Plan) *Outcome {
 		w := newWorldB(p, out, bOpts{
 			nodes: int(p.N["nodes"]), peerType: "file", workers: int(p.N["workers"]),
 			traceTimeout: 300 * time.Millisecond, sendDelay: 50 * time.Millisecond, sendTicker: 20 * time.Millisecond,
-			batchTimeout: us(p.N["batch_timeout_us"]), maxBatch: int(p.N["max_batch"]), stressMode: "never", inQueue: 1000,
+			batchTimeout: us(p.N["batch_timeout_us"]), maxBatch: int(p.N["max_batch"]), stressMode: "never", inQueue: 1000, stressRate: uint64(p.Get("stress_rate", 2)),
 			sampler: &config.DeterministicSamplerConfig{SampleRate: int(p.Get("sampler_rate", 1))}, samplerName: "DeterministicSampler", shuffleSeed: p.Seed,
 		})
 		for _, n := range w.nodes {
